@@ -191,6 +191,19 @@ def _rule_r2_r3(text, log):
         return ('let mut __i_%s: usize = 0; %swhile __i_%s < %s.len() { let %s = %s[__i_%s]; __i_%s = __i_%s + 1;'
                 % (mm.group(2), mm.group(1), mm.group(2), mm.group(3), mm.group(2), mm.group(3), mm.group(2), mm.group(2), mm.group(2)))
     text = re.sub(r"((?:'[a-z_]+\s*:\s*)?)for\s+([a-z_][a-z0-9_]*)\s+in\s+([A-Z][A-Z0-9_]*)\s*\{", r2, text)
+    # R3b: `for x in E.iter_mut() { BODY }` -> index loop, `*x` replaced by `E[i]` in BODY
+    while True:
+        m = rs.mask(text)
+        mm = re.search(r"for\s+([a-z_][a-z0-9_]*)\s+in\s+([A-Za-z_][A-Za-z0-9_.]*)\.iter_mut\(\)\s*\{", m)
+        if not mm:
+            break
+        bo = mm.end() - 1
+        bc = rs.match_brace(m, bo)
+        x, E = mm.group(1), mm.group(2)
+        body = text[bo + 1:bc]
+        body = re.sub(r'\*\s*%s\b' % re.escape(x), '%s[__i_%s]' % (E, x), body)
+        text = text[:mm.start()] + 'for __i_%s in 0..%s.len() {' % (x, E) + body + text[bc:]
+        n3 += 1
     if n2:
         log.append(('R2', n2))
     if n3:
@@ -600,6 +613,58 @@ def splice_fn(item_text, ann, log):
     return attrs + prefix.rstrip() + '\n' + spec + '\n' + body + rest
 
 
+def splice_trait(text, ann, log):
+    """trait item: insert the `traitspec` payload after the opening brace; for each `method NAME` annotation name the
+    return value and insert the spec before the `;` of the method declaration."""
+    m = rs.mask(text)
+    bopen = m.index('{')
+    out = text
+    ins = []
+    if ann.get('traitspec'):
+        ins.append((bopen + 1, '\n' + ann['traitspec'] + '\n'))
+    lost = []
+    for name, a in (ann.get('methods') or {}).items():
+        mm = re.search(r'\bfn\s+%s\s*\(' % re.escape(name), m)
+        if not mm:
+            lost.append('trait method %s not found' % name)
+            continue
+        close = rs.match_brace(m, mm.end() - 1)
+        semi = close + 1
+        dd = 0
+        while semi < len(m):
+            if m[semi] in '([{':
+                dd += 1
+            elif m[semi] in ')]}':
+                dd -= 1
+            elif m[semi] == ';' and dd == 0:
+                break
+            semi += 1
+        sig_tail = text[close + 1:semi]
+        rn = a.get('ret')
+        if rn:
+            arrow = sig_tail.find('->')
+            if arrow < 0:
+                lost.append('trait method %s has no return type' % name)
+                continue
+            ty = sig_tail[arrow + 2:].strip()
+            new_tail = sig_tail[:arrow] + '-> (%s: %s)\n' % (rn, ty)
+        else:
+            new_tail = sig_tail + '\n'
+        ins.append((close + 1, ('REPLACE', semi, new_tail + a.get('spec', '') + '\n')))
+    # apply from the end
+    def keyf(x):
+        return -x[0]
+    for pos, payload in sorted(ins, key=keyf):
+        if isinstance(payload, tuple):
+            _, semi, newt = payload
+            out = out[:pos] + newt + out[semi:]
+        else:
+            out = out[:pos] + payload + out[pos:]
+    if lost:
+        log.append(('LOST-ANCHOR', lost))
+    return out
+
+
 def parse_unit(path):
     lines = open(path).read().split('\n')
     return lines
@@ -677,6 +742,8 @@ def generate(unit_path, repo=REPO):
                         ann['start'] = txt
                     elif section == 'tail':
                         ann['tail'] = txt
+                    elif section == 'traitspec':
+                        top_ann['traitspec'] = txt
                     elif section == 'loop':
                         ann['loops'][sect_arg[0]] = (sect_arg[1], txt)
                     elif section == 'before':
@@ -698,6 +765,12 @@ def generate(unit_path, repo=REPO):
                             nm = d2.split()
                             ann = dict(attr=[], loops={}, loopend={}, loopstart={}, preloop={}, postloop={}, before=[], ret=dict(re.findall(r'(ret)=(\S+)', d2)).get('ret'), nested={})
                             top_ann['nested'][nm[1]] = ann
+                        elif d2 == 'traitspec':
+                            section = 'traitspec'
+                        elif d2.startswith('method '):
+                            nm = d2.split()
+                            ann = dict(attr=[], loops={}, loopend={}, loopstart={}, preloop={}, postloop={}, before=[], ret=dict(re.findall(r'(ret)=(\S+)', d2)).get('ret'), nested={})
+                            top_ann.setdefault('methods', {})[nm[1]] = ann
                         elif d2 == 'outer':
                             ann = top_ann
                         elif d2.startswith('attr '):
@@ -749,6 +822,9 @@ def generate(unit_path, repo=REPO):
                     ann2 = dict(ann)
                     text = splice_fn(prefix + '{ unimplemented!() }' + rest, dict(spec=ann.get('spec', ''), ret=ann.get('ret'), attr=['#[verifier::external_body]'] + ann.get('attr', []), noaxioms=True), log)
                     log.append(('CONTRACT-ONLY', 1))
+                elif it['kind'] == 'trait':
+                    text = apply_rewrites(raw, log, header['rules'])
+                    text = splice_trait(text, ann, log)
                 else:
                     text = apply_rewrites(raw, log, header['rules'])
                     if it['kind'] == 'fn' and it['body_open'] is not None:
@@ -779,6 +855,8 @@ def generate(unit_path, repo=REPO):
     pre.append('use vstd::std_specs::ops::*;')
     pre.append('use vstd::std_specs::cmp::*;')
     pre.append('use core::cmp::Ordering;')
+    pre.append('use std::sync::Arc;')
+    pre.append('use std::collections::{HashMap, HashSet};')
     for p in header['prelude']:
         pre.append('use super::%s::*;' % p)
     if header['broadcast']:
